@@ -115,7 +115,8 @@ def helperOracle (hname : String) (opT : Tree) (ack : Bool) (t0 : Int) (wire : B
     let gz := match h with
       | .compressed .. | .compressedBytes .. => gzok == some "true0" && (gunzip.bind parseHex) == payload
       | _ => true
-    (if want == some wire then [] else [s!"C02 {hname}: the wire does not carry the mode and contents the helper names (model {(want.map toHex).getD "encoder-error"})"]) ++
+    (if want == some wire then [] else [s!"C02 {hname}: the wire does not carry the mode and contents the helper names (model {(want.map toHex).getD "encoder-error"})",
+        s!"C09 {hname} returned nil but the bytes on the wire are not the encoding of its message"]) ++
     (if stampOk then [] else [s!"C02 {hname} is not stamped with the time of the call"]) ++
     (if !ack || wellFormedChunkID id then [] else [s!"C12 {hname}: chunk id on the wire is not a well-formed generated id"]) ++
     (if gz then [] else ["C03 helper stream is not one complete gzip member of exactly the given entries"])
@@ -127,6 +128,7 @@ structure SeqAcc where
   openConns : List String := []     -- from events only (C14 oracle)
   closedConns : List String := []
   branches : List String := []
+  authed : List String := []       -- connections on which the real client's Handshake returned nil (observation only)
   dirty : List Nat := []           -- connections whose peer sent something other than one conforming ack per response
 
 /-- the message the token denotes, with the observed chunk id filled in (Chunk() draws it at random) -/
@@ -238,6 +240,19 @@ def opSEQ (args obs : List String) : Option DecOut := do
             let e ← encodeWithChunk t ack chunk
             pure (Op.send e chunk (parseFault f) resp)
         | _ => none
+      -- with a shared key configured, event data goes only to a connection on which a handshake succeeded
+      let wroteTo : List String := evs.filterMap fun e =>
+        if e.startsWith "w" && !e.startsWith "wac" then (e.splitOn ":").head?.map (fun x => (x.drop 1).toString) else none
+      let fUnauth : List String :=
+        if key.isSome && (opName == "SND" || opName == "RAW" || opName == "HLP") then
+          (wroteTo.filter (fun id => !acc.authed.contains id)).eraseDups.flatMap fun id =>
+            [s!"C05 event data written to connection {id} on which no handshake had succeeded",
+             s!"C06 event data written to connection {id} before a successful handshake on it"]
+        else []
+      let authed' : List String :=
+        if opName == "HS" && res == "ok" then
+          (match wroteTo.head? with | some id => id :: acc.authed | none => acc.authed)
+        else acc.authed
       match opT, mop with
       | .node "HLP" _, _ =>
         -- helpers: judged by the oracles only (their payload is stamped with the clock)
@@ -253,7 +268,7 @@ def opSEQ (args obs : List String) : Option DecOut := do
           | _ => if res == "ok" || !evs.isEmpty then [s!"C06 {hname} outside a live authenticated session"] else []
         -- keep the model's log in step with what happened (the helper's bytes are data written in transport phase)
         let st' := { sBefore with log := sBefore.log }
-        { acc with st := st', fails := acc.fails ++ f10 ++ f06a ++ fHang ++ f14 ++ okWire, openConns := opens, closedConns := closes,
+        { acc with st := st', fails := acc.fails ++ f10 ++ f06a ++ fHang ++ f14 ++ okWire ++ fUnauth, authed := authed', openConns := opens, closedConns := closes,
                    branches := acc.branches ++ [s!"hlp.{res}"] }
       | _, none => { acc with corr := acc.corr ++ [s!"unparsable op {p.1}"], fails := acc.fails ++ f10 ++ f06a ++ f14 }
       | _, some op =>
@@ -363,8 +378,8 @@ def opSEQ (args obs : List String) : Option DecOut := do
             let honest := match opT with | .node "HS" [.atom "std", .atom "honest", _] => res == "ok" | _ => false
             if honest || acc.dirty.contains connId then acc.dirty else connId :: acc.dirty
           else acc.dirty
-        { acc with st := st', corr := acc.corr ++ corr, dirty := dirty',
-                   fails := acc.fails ++ f10 ++ f06a ++ fHang ++ f14 ++ f06 ++ f09 ++ f02 ++ f04 ++ f05,
+        { acc with st := st', corr := acc.corr ++ corr, dirty := dirty', authed := authed',
+                   fails := acc.fails ++ f10 ++ f06a ++ fHang ++ f14 ++ f06 ++ f09 ++ f02 ++ f04 ++ f05 ++ fUnauth,
                    openConns := opens, closedConns := closes, branches := acc.branches ++ [s!"{opName}.{res}"] }
     | _, _ => { acc with corr := acc.corr ++ [s!"unparsable observation for {p.1}"] }
   let acc := (ops.zip outs).foldl step1 {}
